@@ -7,51 +7,82 @@ spec/pmc/MC_PMC*.cfg     exhaustive model checking: ContentsCopied / NothingElse
 spec/pmc/PMCScen.tla     behaviours -> environment scenarios replayed on real PageMigrationControllers
 spec/pmc/PMCTrace.tla    port-event traces of the real controllers checked against PMC (storage = mem)
 spec/pmc/Migration.tla   driver-side handshake (drain - shootdown - re-home - migrate - restart - reply)
-spec/pmc/MigrationTrace.tla  port-event traces of the real driver.Driver (+ page table dumps)
+spec/pmc/MigrationTrace.tla  port-event traces of the real driver.Driver + page table changes and dumps;
+                         GPUs are scripted stubs or real command processors in front of real PMCs (-sys)
 """
 import json
 import os
+from concurrent.futures import ThreadPoolExecutor
 
 import common
 import vlib
 
 LEVEL = 'model_checking'
-RULE = ('cases = environment runs (TLC -simulate behaviours of PMCScen + seeded adversarial environments) executed on '
-        'real PageMigrationControllers, plus migration handshakes executed on the real driver.Driver; distinct = '
-        'distinct event traces; non-trivial = run with >= 1 completed migration of >= 2 chunks whose chunk answers '
-        'were reordered or whose ports were back-pressured, or >= 2 migrations overlapping in time, or (driver level) '
-        'a completed handshake')
+RULE = ('cases = environment runs executed on the real code: (a) TLC -simulate behaviours of PMCScen and seeded '
+        'adversarial environments on real PageMigrationControllers, (b) seeded migration handshakes on the real '
+        'driver.Driver with scripted GPUs, (c) the same with real command processors and real PMCs; distinct = distinct '
+        'event traces; non-trivial = (a) >= 1 completed migration of >= 2 chunks whose chunk answers were reordered, or '
+        '>= 2 migrations overlapping in time; (b, c) >= 1 completed handshake that re-homed a page')
 TSPEC = {'dirs': ['pmc'], 'module': 'PMCTrace.tla', 'cfg': 'PMCTrace.cfg', 'timeout': 1500}
-DSPEC = {'dirs': ['pmc'], 'module': 'MigrationTrace.tla', 'cfg': 'MigrationTrace.cfg', 'timeout': 1500}
 
 
-def _sig(bad, at, v2):
+def dspec(ngpu):
+    return {'dirs': ['pmc'], 'module': 'MigrationTrace.tla', 'cfg': 'MigrationTrace%d.cfg' % ngpu, 'timeout': 1500,
+            'signature': _dsig}
+
+
+def _psig(bad, at, v2):
     ev = bad[min(at, len(bad)) - 1] if bad else {}
-    s = {}
+    s = {'level': 'pmc'}
     if ev.get('e') == 'Panic':
         s['panic'] = str(ev.get('msg'))[:80]
+    if v2['violated'] and at >= 2:
+        s['event'] = bad[at - 2].get('e')   # an invariant broke in the state reached by the previous line
     return s
 
 
-TSPEC['signature'] = _sig
-DSPEC['signature'] = _sig
+def _dsig(bad, at, v2):
+    """Facts about a rejected driver-level trace: which responses were delivered to the driver and never read,
+    and what the driver read last (a driver that went to sleep on unread responses shows up at Quiesce)."""
+    ev = bad[min(at, len(bad)) - 1] if bad else {}
+    s = {'level': 'driver'}
+    if ev.get('e') == 'Panic':
+        s['panic'] = str(ev.get('msg'))[:80]
+    pre = bad[:at]
+    unread = {}
+    last = None
+    for r in pre:
+        if r['e'] == 'GPURsp':
+            unread[r['k']] = unread.get(r['k'], 0) + 1
+        elif r['e'] == 'RecvRsp':
+            unread[r['k']] = unread.get(r['k'], 0) - 1
+            last = r['k']
+    s['unread'] = ','.join(sorted(k for k, n in unread.items() if n > 0))
+    s['last_read'] = last
+    if v2['violated'] and at >= 2:
+        s['event'] = bad[at - 2].get('e')   # an invariant broke in the state reached by the previous line
+    return s
 
 
-# ------------------------------------------------------------------ PMC level
-def corruptions():
-    def pick(recs, rng, e, pred=lambda r: True):
-        idx = [i for i, r in enumerate(recs) if r['e'] == e and pred(r)]
-        return rng.choice(idx) if idx else None
+TSPEC['signature'] = _psig
 
+
+# ------------------------------------------------------------------ corruptions (binding self-test)
+def _pick(recs, rng, e, pred=lambda r: True):
+    idx = [i for i, r in enumerate(recs) if r['e'] == e and pred(r)]
+    return rng.choice(idx) if idx else None
+
+
+def pmc_corruptions(full):
     def corrupt_written_byte(recs, rng):
-        i = pick(recs, rng, 'SendWrite')
+        i = _pick(recs, rng, 'SendWrite')
         if i is None:
             return None
         recs[i]['data'][rng.randrange(len(recs[i]['data']))] ^= 0x10
         return recs
 
     def shift_write_address(recs, rng):
-        i = pick(recs, rng, 'SendWrite')
+        i = _pick(recs, rng, 'SendWrite')
         if i is None:
             return None
         recs[i]['addr'] += 64
@@ -59,26 +90,25 @@ def corruptions():
 
     def early_completion(recs, rng):
         # move a completion in front of the last write acknowledgement that precedes it
-        i = pick(recs, rng, 'SendComplete')
+        i = _pick(recs, rng, 'SendComplete')
         if i is None:
             return None
         g = recs[i]['g']
         js = [j for j in range(i) if recs[j]['e'] == 'RecvMem' and recs[j]['g'] == g and recs[j]['k'] == 'wd']
         if not js:
             return None
-        j = js[-1]
         r = recs.pop(i)
-        recs.insert(j, r)
+        recs.insert(js[-1], r)
         return recs
 
     def duplicate_completion(recs, rng):
-        i = pick(recs, rng, 'SendComplete')
+        i = _pick(recs, rng, 'SendComplete')
         if i is None:
             return None
         return recs[:i + 1] + [dict(recs[i])] + recs[i + 1:]
 
     def drop_chunk_write(recs, rng):
-        i = pick(recs, rng, 'SendWrite')
+        i = _pick(recs, rng, 'SendWrite')
         if i is None:
             return None
         wid, g = recs[i]['id'], recs[i]['g']
@@ -86,7 +116,7 @@ def corruptions():
                                        r['e'] in ('SendWrite', 'MemTake', 'MemRsp', 'RecvMem'))]
 
     def stale_storage(recs, rng):
-        i = pick(recs, rng, 'Storage')
+        i = _pick(recs, rng, 'Storage')
         if i is None:
             return None
         recs[i]['bytes'][rng.randrange(len(recs[i]['bytes']))] ^= 1
@@ -105,10 +135,70 @@ def corruptions():
                 return recs
         return None
 
-    return [('corrupt_written_byte', corrupt_written_byte), ('shift_write_address', shift_write_address),
-            ('completion_before_last_write_done', early_completion), ('duplicate_completion', duplicate_completion),
-            ('drop_chunk_write', drop_chunk_write), ('stale_storage_dump', stale_storage),
-            ('second_request_accepted_mid_migration', second_accept_mid_migration)]
+    cs = [('corrupt_written_byte', corrupt_written_byte), ('completion_before_last_write_done', early_completion),
+          ('drop_chunk_write', drop_chunk_write), ('second_request_accepted_mid_migration', second_accept_mid_migration)]
+    if full:
+        cs += [('shift_write_address', shift_write_address), ('duplicate_completion', duplicate_completion),
+               ('stale_storage_dump', stale_storage)]
+    return cs
+
+
+def drv_corruptions(full):
+    def wrong_device(recs, rng):
+        i = _pick(recs, rng, 'PTChange')
+        if i is None:
+            return None
+        recs[i]['dev'] = 1 if recs[i]['dev'] != 1 else 2
+        return recs
+
+    def copy_from_wrong_page(recs, rng):
+        i = _pick(recs, rng, 'Cmd', lambda r: r['k'] == 'mig')
+        if i is None:
+            return None
+        recs[i]['from'] += 1
+        return recs
+
+    def wrong_contents(recs, rng):
+        i = _pick(recs, rng, 'GPURsp', lambda r: r['k'] == 'mig')
+        if i is None:
+            return None
+        recs[i]['dig'] ^= 1
+        return recs
+
+    def copy_before_shootdown(recs, rng):
+        # a page copy command moved in front of the last shootdown acknowledgement
+        i = _pick(recs, rng, 'Cmd', lambda r: r['k'] == 'mig')
+        if i is None:
+            return None
+        js = [j for j in range(i) if recs[j]['e'] == 'RecvRsp' and recs[j]['k'] == 'shoot']
+        if not js:
+            return None
+        r = recs.pop(i)
+        recs.insert(js[-1], r)
+        return recs
+
+    def duplicate_reply(recs, rng):
+        i = _pick(recs, rng, 'Reply')
+        if i is None:
+            return None
+        return recs[:i + 1] + [dict(recs[i])] + recs[i + 1:]
+
+    def stale_final_mapping(recs, rng):
+        i = _pick(recs, rng, 'Final')
+        moved = {r['vpn'] for r in recs if r['e'] == 'PTChange'}
+        if i is None or not moved:
+            return None
+        for e in recs[i]['pt']:
+            if e[0] in moved:
+                e[1] = 1 if e[1] != 1 else 2
+                return recs
+        return None
+
+    cs = [('page_rehomed_on_wrong_device', wrong_device), ('copy_reads_wrong_physical_page', copy_from_wrong_page)]
+    if full:
+        cs += [('destination_contents_differ', wrong_contents), ('copy_before_last_shootdown_ack', copy_before_shootdown),
+               ('mmu_answered_twice', duplicate_reply), ('final_table_maps_to_old_device', stale_final_mapping)]
+    return cs
 
 
 def pmc_nontrivial(recs):
@@ -118,10 +208,13 @@ def pmc_nontrivial(recs):
     multi = any(r['e'] == 'EnvMig' and r['size'] >= 128 for r in recs)
     order = [r['id'] for r in recs if r['e'] == 'MemRsp']
     reordered = order != sorted(order)
-    # overlap: a second EnvMig before the first completion
     firstc = next((i for i, r in enumerate(recs) if r['e'] == 'SendComplete'), len(recs))
     overlap = sum(1 for r in recs[:firstc] if r['e'] == 'EnvMig') >= 2
     return (multi and reordered) or overlap
+
+
+def drv_nontrivial(recs):
+    return any(r['e'] == 'Reply' for r in recs) and any(r['e'] == 'PTChange' for r in recs)
 
 
 def scen_from_behaviours(behs, seed):
@@ -132,84 +225,213 @@ def scen_from_behaviours(behs, seed):
     return scen
 
 
-def pmc_level(ctx, drv, thorough):
-    # 1. design-level model checking
-    r = ctx.tlc_expect_ok(['pmc'], 'MC_PMC.tla', 'MC_PMC.cfg', coverage=True, timeout=900)
+def _drive(ctx, drv, args):
+    p, stats = common.run_driver(ctx, drv, args)
+    if stats is None:
+        raise vlib.Infra('driver failed: ' + p.stdout[-2000:])
+    return stats
+
+
+def selftests(ctx, tspec, trace, corruptions, acc):
+    """One TLC run per corruption, in parallel."""
+    with ThreadPoolExecutor(max_workers=len(corruptions)) as ex:
+        futs = [ex.submit(common.selftest_binding, ctx, tspec, trace, [c]) for c in corruptions]
+        for f in futs:
+            acc.selftest += f.result()
+
+
+class Acc:
+    """What the parallel phases produce."""
+
+    def __init__(self):
+        self.pmc_traces, self.drv_traces, self.events = [], [], 0
+        self.first_pmc = self.first_drv = None
+        self.selftest = []
+
+
+# ------------------------------------------------------------------ phases
+def phase_mc_pmc(ctx, thorough):
+    w = vlib.NCPU // 2 if thorough else 3
+    r = ctx.tlc_expect_ok(['pmc'], 'MC_PMC.tla', 'MC_PMC.cfg', coverage=True, timeout=900, workers=w)
     ctx.log('MC_PMC (2 GPUs, 2 serial migrations of <= 2 chunks): %d distinct states, depth %d' % (r.distinct, r.depth))
-    ctx.cov['coverage_zero_actions'] = r.coverage_zero()
-    if ctx.cov['coverage_zero_actions']:
-        raise vlib.Infra('vacuity: actions never taken in MC_PMC: %s' % ctx.cov['coverage_zero_actions'])
-    r = ctx.tlc_expect_ok(['pmc'], 'MC_PMC.tla', 'MC_PMC_conc.cfg', timeout=900)
+    zeros = r.coverage_zero()
+    r = ctx.tlc_expect_ok(['pmc'], 'MC_PMC.tla', 'MC_PMC_conc.cfg', timeout=900, workers=w)
     ctx.log('MC_PMC_conc (3 overlapping migrations, both directions and queued): %d distinct states' % r.distinct)
-    r = ctx.tlc_expect_ok(['pmc'], 'MC_PMC.tla', 'MC_PMC_live.cfg', timeout=900)
+    r = ctx.tlc_expect_ok(['pmc'], 'MC_PMC.tla', 'MC_PMC_live.cfg', timeout=900, workers=w)
     ctx.log('MC_PMC_live (Progress under fairness): %d distinct states' % r.distinct)
+    if zeros:
+        raise vlib.Infra('vacuity: actions never taken in MC_PMC: %s' % zeros)
     if thorough:
         for cfg in ('MC_PMC_big.cfg', 'MC_PMC_3gpu.cfg', 'MC_PMC_cap2.cfg', 'MC_PMC_ser3.cfg'):
-            r = ctx.tlc_expect_ok(['pmc'], 'MC_PMC.tla', cfg, workers=vlib.NCPU, timeout=3000)
+            r = ctx.tlc_expect_ok(['pmc'], 'MC_PMC.tla', cfg, workers=w, timeout=3000)
             ctx.log('%s: %d distinct states, depth %d' % (cfg, r.distinct, r.depth))
+
+
+def phase_mc_mig(ctx, thorough):
+    w = vlib.NCPU // 2 if thorough else 3
+    r = ctx.tlc_expect_ok(['pmc'], 'MC_Migration.tla', 'MC_Migration.cfg', coverage=True, timeout=900, workers=w)
+    ctx.log('MC_Migration (2 GPUs, 3 pages, 2 requests, intended design): %d distinct states, depth %d' % (r.distinct, r.depth))
+    zeros = r.coverage_zero()
+    if zeros:
+        raise vlib.Infra('vacuity: actions never taken in MC_Migration: %s' % zeros)
+    # the as-implemented reply slot is expected to lose a reply in the model (known finding C19-mmu-reply-overwritten)
+    r = ctx.tlc(['pmc'], 'MC_Migration.tla', 'MC_Migration_asimpl.cfg', timeout=900, workers=w)
+    if 'NoReplyDropped' not in r.violated:
+        raise vlib.Infra('MC_Migration_asimpl: expected the NoReplyDropped counterexample, got %s %s' % (r.violated, r.error))
+    ctx.log('MC_Migration_asimpl (one-slot reply as implemented): NoReplyDropped counterexample found, as expected')
+    if thorough:
+        r = ctx.tlc_expect_ok(['pmc'], 'MC_Migration.tla', 'MC_Migration_live.cfg', timeout=1800, workers=w)
+        ctx.log('MC_Migration_live (Progress under fairness): %d distinct states' % r.distinct)
+        r = ctx.tlc_expect_ok(['pmc'], 'MC_Migration.tla', 'MC_Migration_big.cfg', workers=w, timeout=3000)
+        ctx.log('MC_Migration_big.cfg: %d distinct states, depth %d' % (r.distinct, r.depth))
         ctx.cov['exhaustive'] = True
 
-    # 2. spec -> code: behaviours as scenarios
-    nsim = 300 if thorough else 50
+
+def phase_scen(ctx, drv, thorough, acc):
+    nsim = 300 if thorough else 40
     behs, _ = ctx.simulate(['pmc'], 'PMCScen.tla', 'PMCScen.cfg', num=nsim, depth=150 if thorough else 110)
     scen = scen_from_behaviours(behs, ctx.seed)
     sfile = os.path.join(ctx.scratch, 'scen.json')
     json.dump(scen, open(sfile, 'w'))
     t1 = os.path.join(ctx.scratch, 'trace_scen.ndjson')
-    p, stats = common.run_driver(ctx, drv, ['-scen', sfile, '-out', t1])
-    if stats is None:
-        raise vlib.Infra('driver failed: ' + p.stdout[-2000:])
-    ctx.log('replayed %d TLC behaviours: %s' % (len(scen), stats))
+    stats = _drive(ctx, drv, ['-scen', sfile, '-out', t1])
+    ctx.log('replayed %d TLC behaviours on real PMCs: %s' % (len(scen), stats))
     ctx.sample({'scenario_from_TLC_behaviour': scen[0]['steps'][:14]})
     common.validate_and_triage(ctx, TSPEC, t1, {'cmd': 'c19', 'scenarios': scen})
+    acc.pmc_traces.append(t1)
+    acc.events += stats['events']
+    # free-running: akita SerialEngine + DirectConnection + ideal memory controllers, nothing scripted
+    t4 = os.path.join(ctx.scratch, 'trace_real.ndjson')
+    args4 = ['-real', 150 if thorough else 12, '-reqs', 6, '-maxchunks', 6 if thorough else 4, '-seed', ctx.seed + 5, '-out', t4]
+    stats4 = _drive(ctx, drv, args4)
+    ctx.log('free-running on akita engine/connections/ideal memory: %s' % stats4)
+    common.validate_and_triage(ctx, TSPEC, t4, {'cmd': 'c19', 'args': args4[:-1]})
+    acc.pmc_traces.append(t4)
+    acc.events += stats4['events']
 
-    # 3. code -> spec: seeded adversarial environments
-    nrand = 400 if thorough else 50
+
+def phase_random(ctx, drv, thorough, acc):
+    nrand = 400 if thorough else 40
     t2 = os.path.join(ctx.scratch, 'trace_rand.ndjson')
     args = ['-random', nrand, '-reqs', 6 if thorough else 5, '-maxchunks', 6 if thorough else 4, '-seed', ctx.seed, '-out', t2]
-    p, stats2 = common.run_driver(ctx, drv, args)
-    if stats2 is None:
-        raise vlib.Infra('driver failed: ' + p.stdout[-2000:])
-    ctx.log('random environments: %s' % stats2)
+    stats2 = _drive(ctx, drv, args)
+    ctx.log('random environments on real PMCs: %s' % stats2)
     common.validate_and_triage(ctx, TSPEC, t2, {'cmd': 'c19', 'args': args[:-1]})
-    traces = [t1, t2]
-    ev = stats['events'] + stats2['events']
+    acc.pmc_traces.append(t2)
+    acc.events += stats2['events']
+    selftests(ctx, TSPEC, t2, pmc_corruptions(thorough), acc)
     if thorough:
         # full-size pages (4 KiB = 64 chunks)
         t3 = os.path.join(ctx.scratch, 'trace_big.ndjson')
         args3 = ['-random', 6, '-reqs', 3, '-maxchunks', 64, '-seed', ctx.seed + 77, '-out', t3]
-        p, stats3 = common.run_driver(ctx, drv, args3)
-        if stats3 is None:
-            raise vlib.Infra('driver failed: ' + p.stdout[-2000:])
+        stats3 = _drive(ctx, drv, args3)
         ctx.log('4 KiB pages: %s' % stats3)
         common.validate_and_triage(ctx, dict(TSPEC, heap='6g'), t3, {'cmd': 'c19', 'args': args3[:-1]})
-        traces.append(t3)
-        ev += stats3['events']
-    return traces, ev
+        acc.pmc_traces.append(t3)
+        acc.events += stats3['events']
+
+
+def drv_args(n, kind, ngpu, seed, sys=False, log2=12):
+    a = ['-drv', n, '-drvkind', kind, '-drvgpus', ngpu, '-drvlog2', log2, '-seed', seed]
+    if sys:
+        a.append('-sys')
+    return a
+
+
+def run_drv(ctx, drv, acc, tag, n, kind, ngpu, seed, sys=False, log2=12, max_rounds=6):
+    t = os.path.join(ctx.scratch, 'trace_drv_%s.ndjson' % tag)
+    tp = os.path.join(ctx.scratch, 'trace_syspmc_%s.ndjson' % tag)
+    base = drv_args(n, kind, ngpu, seed, sys, log2)
+    args = base + ['-out', os.path.join(ctx.scratch, 'unused_%s.ndjson' % tag), '-drvout', t, '-syspmcout', tp]
+    stats = _drive(ctx, drv, args)
+    ctx.log('driver level [%s: %d GPUs, %s%s]: %s' % (tag, ngpu, kind, ', real CPs + PMCs' if sys else ', scripted GPUs', stats))
+    common.validate_and_triage(ctx, dspec(ngpu), t, {'cmd': 'c19', 'level': 'driver', 'ngpu': ngpu, 'args': base},
+                               max_rounds=max_rounds)
+    acc.drv_traces.append(t)
+    if tag == 'stub2':
+        acc.first_drv = t
+    acc.events += stats['drv_events']
+    if sys:
+        common.validate_and_triage(ctx, TSPEC, tp, {'cmd': 'c19', 'level': 'syspmc', 'ngpu': ngpu, 'args': base})
+        acc.pmc_traces.append(tp)
+        acc.events += stats['drv_pmc_events']
+
+
+def phase_drv(ctx, drv, thorough, acc):
+    run_drv(ctx, drv, acc, 'stub2', 300 if thorough else 40, 'normal', 2, ctx.seed)
+    with ThreadPoolExecutor(max_workers=1) as ex:
+        f = ex.submit(selftests, ctx, dspec(2), acc.first_drv, drv_corruptions(thorough), acc)
+        phase_drv_rest(ctx, drv, thorough, acc)
+        f.result()
+
+
+def phase_drv_rest(ctx, drv, thorough, acc):
+    # scenarios exhibiting the known driver defects (accepted as soon as the fixes are applied)
+    run_drv(ctx, drv, acc, 'known', 2, 'known', 2, ctx.seed)
+    if thorough:
+        run_drv(ctx, drv, acc, 'stub3', 200, 'normal', 3, ctx.seed + 1)
+        run_drv(ctx, drv, acc, 'stub4', 100, 'normal', 4, ctx.seed + 2)
+        run_drv(ctx, drv, acc, 'wild3', 60, 'wild', 3, ctx.seed + 3, max_rounds=40)
+
+
+def phase_sys(ctx, drv, thorough, acc):
+    run_drv(ctx, drv, acc, 'sys2', 40 if thorough else 6, 'normal', 2, ctx.seed + 10, sys=True, log2=8)
+    if thorough:
+        run_drv(ctx, drv, acc, 'sys3', 20, 'normal', 3, ctx.seed + 11, sys=True, log2=9)
+        run_drv(ctx, drv, acc, 'sys2_4k', 3, 'normal', 2, ctx.seed + 12, sys=True, log2=12)
 
 
 def run(ctx, selftest=False):
     thorough = ctx.tier == 'thorough'
     drv = ctx.go_build('c19')
-    traces, ev = pmc_level(ctx, drv, thorough)
+    acc = Acc()
+    jobs = [lambda: phase_mc_pmc(ctx, thorough), lambda: phase_mc_mig(ctx, thorough), lambda: phase_scen(ctx, drv, thorough, acc),
+            lambda: phase_random(ctx, drv, thorough, acc), lambda: phase_drv(ctx, drv, thorough, acc),
+            lambda: phase_sys(ctx, drv, thorough, acc)]
+    with ThreadPoolExecutor(max_workers=len(jobs)) as ex:
+        futs = [ex.submit(j) for j in jobs]
+        errs = []
+        for f in futs:
+            try:
+                f.result()
+            except Exception as e:  # noqa: BLE001 - re-raised below, first one wins
+                errs.append(e)
+    if errs:
+        raise errs[0]
 
-    parts = []
-    for t in traces:
-        parts += vlib.split_traces(t)
-    distinct = {json.dumps([{k: v for k, v in r.items() if k != 'seq'} for r in recs], sort_keys=True) for _, recs in parts}
-    nt = sum(1 for _, recs in parts if pmc_nontrivial(recs))
-    ex = [{k: (v if k not in ('data', 'bytes', 'frames') else '...') for k, v in r.items()} for r in parts[-1][1][1:12]]
-    ctx.sample({'trace_excerpt': ex})
-    ctx.cov.update({'evaluations': len(parts), 'distinct_nontrivial': min(nt, len(distinct)), 'events_validated': ev,
-                    'migrations_completed_on_real_pmcs': sum(1 for _, recs in parts for r in recs if r['e'] == 'SendComplete')})
+    pparts, dparts = [], []
+    for t in acc.pmc_traces:
+        pparts += vlib.split_traces(t)
+    for t in acc.drv_traces:
+        dparts += vlib.split_traces(t)
 
-    # 4. binding self-test
-    common.selftest_binding(ctx, TSPEC, traces[1], corruptions())
+    def strip(recs):
+        return json.dumps([{k: v for k, v in r.items() if k != 'seq'} for r in recs], sort_keys=True)
+
+    nontrivial = {strip(recs) for _, recs in pparts if pmc_nontrivial(recs)} | \
+                 {strip(recs) for _, recs in dparts if drv_nontrivial(recs)}
+    ex1 = [{k: (v if k not in ('data', 'bytes', 'frames') else '...') for k, v in r.items()} for r in pparts[0][1][1:10]]
+    ctx.sample({'pmc_trace_excerpt': ex1})
+    ctx.sample({'driver_trace_excerpt': dparts[0][1][1:14]})
+    ctx.cov.update({'evaluations': len(pparts) + len(dparts), 'distinct_nontrivial': len(nontrivial),
+                    'events_validated': acc.events,
+                    'migrations_completed_on_real_pmcs': sum(1 for _, recs in pparts for r in recs if r['e'] == 'SendComplete'),
+                    'handshakes_completed_on_real_driver': sum(1 for _, recs in dparts for r in recs if r['e'] == 'Reply'),
+                    'pages_rehomed_on_real_driver': sum(1 for _, recs in dparts for r in recs if r['e'] == 'PTChange')})
+
+    # binding self-tests of both trace specs ran inside the phases
+    ctx.cov['binding_selftest'] = acc.selftest
+    if len(acc.selftest) < 6:
+        raise vlib.Infra('binding self-test: only %d corruptions applied' % len(acc.selftest))
     ctx.assumptions += ['akitabench mini engine and fake connection stand in for akita SerialEngine/DirectConnection',
-                        'port hooks observe every message of the controllers (akita v4.9.0 defaultPort)',
+                        'port hooks observe every message of the components (akita v4.9.0 defaultPort)',
                         'scripted memory controllers: byte-accurate storage, a request takes effect when it is answered',
                         'migrations issued concurrently never share a page; destinations are fresh pages (what the driver allocates)',
-                        'page sizes are positive multiples of the 64-byte transfer unit (the property\'s quantifier)']
+                        'page sizes are positive multiples of the 64-byte transfer unit (the property\'s quantifier)',
+                        'driver level: the page table is observed by polling vm.PageTable after every cycle; '
+                        'RDMA engine, CUs, address translators, caches and TLBs behind the real command processors are scripted',
+                        'the normal driver-level environment keeps clear of the two known driver defects '
+                        '(dedicated scenarios exhibit them; the thorough tier also runs an unrestricted environment)']
 
 
 def replay(ctx, path):
@@ -223,13 +445,15 @@ def replay(ctx, path):
         json.dump(d['scenarios'], open(sfile, 'w'))
         args = ['-scen', sfile, '-out', t]
     elif d.get('level') == 'driver':
-        tspec = DSPEC
-        args = d['args'] + ['-out', os.path.join(ctx.scratch, 'unused.ndjson'), '-drvout', t]
+        tspec = dspec(d['ngpu'])
+        args = d['args'] + ['-out', os.path.join(ctx.scratch, 'u1.ndjson'), '-drvout', t,
+                            '-syspmcout', os.path.join(ctx.scratch, 'u2.ndjson')]
+    elif d.get('level') == 'syspmc':
+        args = d['args'] + ['-out', os.path.join(ctx.scratch, 'u1.ndjson'), '-drvout', os.path.join(ctx.scratch, 'u2.ndjson'),
+                            '-syspmcout', t]
     else:
         args = d['args'] + [t]
-    p, stats = common.run_driver(ctx, drv, args)
-    if stats is None:
-        raise vlib.Infra('driver failed: ' + p.stdout[-2000:])
+    _drive(ctx, drv, args)
     before = len(ctx.violations)
     common.validate_and_triage(ctx, tspec, t, d)
     return 1 if len(ctx.violations) > before else 0
